@@ -208,6 +208,8 @@ class CrossBackend(Bounded):
             w('pre.h', '#include <stdio.h>\n')
             w('Jt.java', 'public class Jt { public static void main(String[] a) { } }\n')
             w('README', '')
+            for d in ('one', 'two', 'three', 'four'):
+                w('prebuilt/%s/lib%s.so' % (d, d), '')
             w('data/in put.txt', 'x')
             os.makedirs(top + '/bin')
             for name, mod in (('bfg9000', 'bfg9000.driver'), ('bfg9000-depfixer', 'bfg9000.depfixer')):
